@@ -285,6 +285,18 @@ func (arr *SexpArray) SexpString(ps *PrintState) string {
 	indInner := ""
 	indent := ps.GetIndent()
 	innerPs := ps.AddIndent(4) // generates a fresh new PrintState
+	// an array can be made to contain itself: (aset a 0 a). Printing it
+	// must not recurse for ever (stack exhaustion kills the process).
+	// innerPs shares its Seen set with ps; the elements are printed with
+	// a state that shares it too.
+	if innerPs.GetSeen(arr) {
+		return "[...cycle...]"
+	}
+	innerPs.SetSeen(arr, "SexpArray")
+	defer delete(innerPs.Seen, interface{}(arr))
+	if ps == nil {
+		ps = &PrintState{Seen: innerPs.Seen}
+	}
 	inner := indent + 4
 	//prettyEnd := ""
 	pretty := false
